@@ -23,6 +23,13 @@ impl SourceFileMap {
         self.file_line_ranges.push(SourceLineRanges::default());
     }
 
+    /// Adds a file line that has a BASIC line number but whose content was not
+    /// stored in the program (it is empty or failed to tokenize), so no program
+    /// location can ever refer to it.
+    pub(crate) fn add_unstored(&mut self, ranges: SourceLineRanges) {
+        self.file_line_ranges.push(ranges);
+    }
+
     pub(crate) fn add(&mut self, basic_line: u64, ranges: SourceLineRanges) {
         let file_line_number = self.file_line_ranges.len();
         self.basic_lines_to_file_lines
